@@ -570,9 +570,6 @@ package agent
 //@ func (*collator_).getType
 //@   props C19
 //@   nilok
-//@   noverify
-//@   trusted
-//@   nopanic
 //@   defines result == gtype(type_)
 
 //@ func (*collator_).rankValues
